@@ -71,7 +71,7 @@ claim("C11", "reference-model monitor: bridge model over reflectively synthesise
       "Trusts the 120-line bridge model as my reading of the statement; combinations it leaves open are skipped and counted.",
       "5/C11")
 claim("C19", "reference-model monitor: independent days-from-civil calendar, per-time-zone child processes",
-      "One child per local time zone (TZ set before start, 9 zones) evaluates date(y,m,d) for years 1-9999 with months/days from -40 to 60, the field extractors, millSecond, addDate, useTimezone and timeFormat on random instants and on instants around every DST transition of the zone between 1900 and 2100; civil fields, weekday, milliseconds, carry and formatting are computed independently (Hinnant's days-from-civil), instants are checked against local midnight / same clock time under the zone's offsets, unknown zones must be errors, now/toDay against the wall-clock bracket.",
+      "One child per local time zone (TZ set before start, 11 zones incl. UTC+14 and UTC-11 so that some local date always differs from the UTC date) evaluates date(y,m,d) for years 1-9999 with months/days from -40 to 60, the field extractors, millSecond, addDate, useTimezone and timeFormat on random instants and on instants around every DST transition of the zone between 1900 and 2100; civil fields, weekday, milliseconds, carry and formatting are computed independently (Hinnant's days-from-civil), instants are checked against local midnight / same clock time under the zone's offsets, unknown zones must be errors, now/toDay against the wall-clock bracket.",
       "Trusts Go's time package for zone offsets only; the meaning of 'local midnight' on skipped/repeated midnights is the candidate-offset rule stated in the assumptions.",
       "5/C19")
 claim("C09", "Go race detector on a race-instrumented harness + sequential-equivalence monitor, one child process per concurrency configuration",
